@@ -1755,6 +1755,9 @@ type Fact struct {
 	// for literals about a call (ok:… = the call returned a nil error; call:… = boolean result): the call and its env
 	Call ssa.CallInstruction
 	Env  *Env
+	// the field loads of the analysed function whose values the fact's terms were built from (a fact re-established by
+	// crossing its edge again is only fresh if these loads are executed again)
+	loads []*ssa.UnOp
 	// disjunction: one of the alternatives (each a conjunction) holds; produced for a materialised `a || b` / `a && b`
 	// value tested by a separate If (switch cases, named conditions)
 	Or [][]Fact
@@ -1915,14 +1918,23 @@ func (e *Env) decode(c ssa.Value, truth bool, why string) []Fact {
 	out := e.decode0(c, truth, why)
 	e.touch = save
 	var defs []*ssa.BasicBlock
+	var loads []*ssa.UnOp
 	for v := range ts.vals {
 		if in, ok := v.(ssa.Instruction); ok && in.Parent() == e.Fn && in.Block() != nil {
 			defs = append(defs, in.Block())
+			if u, ok := v.(*ssa.UnOp); ok && u.Op == token.MUL {
+				if _, isFA := u.X.(*ssa.FieldAddr); isFA {
+					loads = append(loads, u)
+				}
+			}
 		}
 	}
 	for i := range out {
 		if out[i].defs == nil {
 			out[i].defs = defs
+		}
+		if out[i].loads == nil {
+			out[i].loads = loads
 		}
 	}
 	return out
@@ -2664,6 +2676,45 @@ func (e *Env) boolReturnFactsIdx(idx int, truth bool, why string) []Fact {
 				continue
 			}
 		}
+		// facts about the other results (`idx, found := search(list, x)`: found == true says something about idx), named ret#j
+		for j := range r.Results {
+			if j == idx {
+				continue
+			}
+			ov := retval(r, j)
+			rt := e.Term(ov)
+			if a, k0, ok := e.resultAtom(ov); ok {
+				for _, pf := range e.phiFacts() {
+					if _, has := pf.LE.c[a]; has {
+						m[pf.Key()] = pf
+					}
+				}
+				for _, f := range m {
+					if f.Lin {
+						if _, has := f.LE.c[a]; has {
+							g := f
+							g.LE = substResult(f.LE, a, fmt.Sprintf("ret#%d", j), k0)
+							m[g.Key()] = g
+						}
+					}
+				}
+				continue
+			}
+			if len(rt) <= 3 || strings.HasPrefix(rt, "nil") {
+				continue
+			}
+			for k, f := range m {
+				if strings.Contains(k, rt) {
+					g := f
+					if g.Lin {
+						g.LE = renameLE(g.LE, rt, fmt.Sprintf("ret#%d", j))
+					} else {
+						g.Atom = strings.ReplaceAll(g.Atom, rt, fmt.Sprintf("ret#%d", j))
+					}
+					m[g.Key()] = g
+				}
+			}
+		}
 		sets = append(sets, m)
 	}
 	if len(sets) == 0 {
@@ -2692,6 +2743,28 @@ func (e *Env) boolReturnFactsIdx(idx int, truth bool, why string) []Fact {
 			out = append(out, f)
 		}
 	}
+	// in the caller's terms
+	if call, ok := e.Call.(*ssa.Call); ok && e.Parent != nil && call.Call.Signature().Results().Len() > 1 {
+		var keep []Fact
+		internal := "@" + e.ctx
+		n := call.Call.Signature().Results().Len()
+		for _, f := range out {
+			g := f
+			for j := 0; j < n; j++ {
+				tag, res := fmt.Sprintf("ret#%d", j), e.Parent.Term(call)+"#"+fmt.Sprint(j)
+				if g.Lin {
+					g.LE = renameLE(g.LE, tag, res)
+				} else {
+					g.Atom = strings.ReplaceAll(g.Atom, tag, res)
+				}
+			}
+			if strings.Contains(g.Key(), "ret#") || g.Lin && strings.Contains(g.Key(), internal) {
+				continue
+			}
+			keep = append(keep, g)
+		}
+		out = keep
+	}
 	return out
 }
 
@@ -2717,15 +2790,21 @@ func (e *Env) returnFactsA(sel func(*ssa.Return) bool, why string, assume []Fact
 		for i := range r.Results {
 			rv := liveRetval(r, i)
 			rt := e.Term(rv)
-			if isInteger(rv.Type()) {
-				// an integer result is named by its linear atom (the term of a product carries extra parentheses)
-				if l := e.LE(rv); len(l.c) == 1 && l.k == 0 {
-					for a, k := range l.c {
-						if k == 1 {
-							rt = a
+			if a, k0, ok := e.resultAtom(rv); ok {
+				// an integer result atom + k: linear facts over the atom become facts over the result
+				for _, f := range m {
+					if f.Lin {
+						if _, has := f.LE.c[a]; has {
+							g := f
+							g.LE = substResult(f.LE, a, fmt.Sprintf("ret#%d", i), k0)
+							m[g.Key()] = g
 						}
 					}
 				}
+				if k0 != 0 {
+					continue
+				}
+				rt = a
 			}
 			for k, f := range m {
 				if strings.Contains(k, rt) && !strings.HasPrefix(rt, "nil") && len(rt) > 3 {
@@ -2781,6 +2860,44 @@ func (e *Env) unreachableUnder(p *ssa.BasicBlock, assume []Fact) bool {
 		}
 	}
 	return len(cut) > 0 && !reachableAvoiding(e.Fn.Blocks[0], p, cut)
+}
+
+// substResult rewrites a linear fact over atom a into one over the result tag, when the returned value is a + k.
+func substResult(l LE, a, tag string, k int64) LE {
+	c, ok := l.c[a]
+	if !ok {
+		return l
+	}
+	r := newLE()
+	r.k = l.k - c*k
+	for x, v := range l.c {
+		if x == a {
+			r.c[tag] += v
+		} else {
+			r.c[x] += v
+		}
+	}
+	if atomUnsigned[a] && k == 0 {
+		atomUnsigned[tag] = true
+	}
+	return r
+}
+
+// resultAtom: the returned integer value as atom + constant, if it has that shape.
+func (e *Env) resultAtom(v ssa.Value) (string, int64, bool) {
+	if !isInteger(v.Type()) {
+		return "", 0, false
+	}
+	l := e.LE(v)
+	if len(l.c) != 1 {
+		return "", 0, false
+	}
+	for a, c := range l.c {
+		if c == 1 {
+			return a, l.k, true
+		}
+	}
+	return "", 0, false
 }
 
 func renameLE(l LE, from, to string) LE {
@@ -3008,16 +3125,64 @@ func (e *Env) killedBetween(f Fact, eds []edge, p *ssa.BasicBlock, at ssa.Instru
 		cutS[ed] = true
 	}
 	for b := range between {
+		after := false // instructions of p behind the use: they matter only for a later iteration (stale-load criterion below)
 		for _, in := range b.Instrs {
 			if b == p && at != nil && in == at {
-				break
+				after = true
+				continue
 			}
 			if !e.mayKill(in, fields, f.big) {
 				continue
 			}
 			// the killer matters only if p can be reached from it without the fact being re-established on the way
-			if b == p || reachableAvoiding(b, p, cutS) {
+			if !after && (b == p || reachableAvoiding(b, p, cutS)) {
 				return true
+			}
+			if after {
+				cyc := false
+				for _, sx := range b.Succs {
+					if reachableAvoiding(sx, p, nil) {
+						cyc = true
+					}
+				}
+				if !cyc {
+					continue
+				}
+			}
+			// … and a re-established fact is only fresh if the loads it was computed from run again after the killer: a
+			// `range x.f` loop compares its counter with a length read once before the loop; shrinking x.f inside the loop
+			// leaves that comparison true and the fact about len(x.f) false
+			if st, isStore := in.(*ssa.Store); isStore {
+				if kfa, ok := st.Addr.(*ssa.FieldAddr); ok {
+					kf := fieldName(kfa.X.Type(), kfa.Field)
+					for _, ld := range f.loads {
+						lfa := ld.X.(*ssa.FieldAddr)
+						if fieldName(lfa.X.Type(), lfa.Field) != kf || ld.Block() == nil || ld.Parent() != e.Fn {
+							continue // loads inside a callee run again whenever the call does
+						}
+						if ld.Block() == b {
+							continue
+						}
+						// can the use be reached from the killer without the load running again?
+						cutL := map[edge]bool{}
+						for _, pb := range ld.Block().Preds {
+							cutL[edge{pb, ld.Block()}] = true
+						}
+						reach := false
+						if after {
+							for _, sx := range b.Succs {
+								if !cutL[edge{b, sx}] && (sx == p || reachableAvoiding(sx, p, cutL)) {
+									reach = true
+								}
+							}
+						} else {
+							reach = reachableAvoiding(b, p, cutL)
+						}
+						if reach {
+							return true
+						}
+					}
+				}
 			}
 		}
 	}
